@@ -7,6 +7,19 @@
      CONVERSION = { "null": lambda x: None, "bool": bool, "integer": int, "number": float,
                     "string": str, "decimal": Decimal, None: lambda x: x }
 
+   The SHAPE of the two helper bodies and the partial() instances are read from the source on every
+   run (Gen/ConversionBodyParams.v, written by harness/t1_c16.py); the text above is what the
+   parameters say today:
+     ds_pre = PreInt, ds_pad_char = 48, ds_pad_extra = 0, ds_pad_side = PadLeft,
+     ds_slice_lo = BNegSize, ds_slice_hi = BNone,
+     dp_quantum = QScaleb 1 (-1) 0, dp_via = ViaDirect, dp_rounding = RDefault, dp_ctx = CtxDefault,
+     partial_table = digits_5 -> (digit_string, 5), decimal_2 -> (decimal_places, 2).
+   Every function below branches on these parameters, so another value gives another function and
+   the lemmas of Proofs/ConversionP.v (stated for the functions the property is about) stop
+   compiling.  For the values the source has today the model is exact; for the other values it
+   is exact where noted and a stated approximation elsewhere (no theorem and no verdict on the
+   unchanged tree depends on those branches).
+
    The numeric argument arrives as an exact decimal [dec] (sign, coefficient, exponent): that is
    what Decimal(value).as_tuple() gives for an int, a float, a numeric str or a Decimal.
 
@@ -14,17 +27,19 @@
                    both truncate).
    str(int)        decimal digits, most significant first, a minus sign for negative values;
                    CPython refuses integers of more than 4300 digits with ValueError.
-   s[-size:]       the last [size] characters; the whole string when size = 0 or size >= len(s).
+   s[lo:hi]        Python slice with bounds absent, size or -size ([py_slice]); s[-size:] is the
+                   last [size] characters, the whole string when size = 0 or size >= len(s).
    Decimal(1).scaleb(-digits)  under the default context (precision 28, Emin -999999,
                    Emax 999999, Etiny -1000026): 1E-digits; below Etiny it underflows to
                    0E-1000026; beyond 2*(Emax+prec) scaleb raises InvalidOperation.
-   x.quantize(q)   only the exponent of q matters.  ROUND_HALF_EVEN.  InvalidOperation when the
+   x.quantize(q)   only the exponent of q matters.  ROUND_HALF_EVEN unless a rounding argument is
+                   passed ([round_div] has all eight modes).  InvalidOperation when the
                    exponent is outside [Etiny, Emax] or the result coefficient has more than
                    28 digits.  The sign of x is kept, also on a zero result.
    Strings are lists of code points.  No proofs in this file. *)
 From Coq Require Import ZArith NArith List Bool.
 Import ListNotations.
-Require Import SR.Base.Res SR.Spec.Conversion SR.Gen.ConversionParams.
+Require Import SR.Base.Res SR.Spec.Conversion SR.Gen.ConversionParams SR.Gen.ConversionBodyParams.
 Open Scope Z_scope.
 
 (* ---------------- digit_string ---------------- *)
@@ -56,17 +71,66 @@ Definition str_int (v : Z) : res (list N) :=
   if too_long v then Err ValueError
   else Ok (if v <? 0 then 45%N :: str_nonneg (- v) else str_nonneg v).
 
-Definition zeros (n : nat) : list N := repeat 48%N n.
+(* str(x) for a Decimal x (Decimal.__str__: plain notation when the exponent is <= 0 and the
+   value is at least 1E-6 in magnitude, else scientific).  Equal to str(int) when dexp x = 0. *)
+Definition str_dec (x : dec) : list N :=
+  let ds := str_nonneg (Z.of_N (coef x)) in
+  let len := Z.of_nat (length ds) in
+  let left := dexp x + len in
+  let dot := if (dexp x <=? 0) && (-6 <? left) then left else 1 in
+  let body :=
+    if dot <=? 0 then [48%N; 46%N] ++ repeat 48%N (Z.to_nat (- dot)) ++ ds
+    else if len <=? dot then ds ++ repeat 48%N (Z.to_nat (dot - len))
+    else firstn (Z.to_nat dot) ds ++ [46%N] ++ skipn (Z.to_nat dot) ds in
+  let e := if left =? dot then []
+           else 69%N :: (if 0 <=? left - dot then 43%N else 45%N) :: str_nonneg (Z.abs (left - dot)) in
+  (if neg x then [45%N] else []) ++ body ++ e.
 
-(* s[-size:] *)
-Definition py_last (size : nat) (s : list N) : list N :=
-  match size with
-  | O => s
-  | _ => skipn (length s - size) s
+Definition is_integral (x : dec) : bool :=
+  if 0 <=? dexp x then true else Z.of_N (coef x) mod 10 ^ (- dexp x) =? 0.
+
+(* str(F(value)), F as the source has it.
+   PreInt           exact.
+   PreNone, PreStr  str(value): exact for an int or Decimal argument; a float prints differently
+                    (1020.0), which the exact decimal the model receives cannot tell.
+   PreFloat         str(float(value)): integral values below 10^16 print as the integer followed
+                    by .0; nothing is modelled beyond that (OtherError). *)
+Definition pre_text (p : pre) (x : dec) : res (list N) :=
+  match p with
+  | PreInt => str_int (int_of_dec x)
+  | PreNone | PreStr => Ok (str_dec x)
+  | PreFloat =>
+      if is_integral x && (Z.abs (int_of_dec x) <? 10 ^ 16)
+      then bind (str_int (int_of_dec x)) (fun s => Ok (s ++ [46%N; 48%N]))
+      else Err OtherError
   end.
 
-Definition digit_string (size : nat) (x : dec) : res (list N) :=
-  bind (str_int (int_of_dec x)) (fun s => Ok (py_last size (zeros size ++ s))).
+(* (size + extra) * c : a negative count gives the empty string *)
+Definition padding (c : N) (extra : Z) (size : nat) : list N :=
+  repeat c (Z.to_nat (Z.of_nat size + extra)).
+
+Definition padded (side : pad_side) (pad s : list N) : list N :=
+  match side with PadLeft => pad ++ s | PadRight => s ++ pad end.
+
+(* position a slice bound denotes in a string of [len] characters; -0 is 0 *)
+Definition py_index (size len : nat) (b : bound) (absent : nat) : nat :=
+  match b with
+  | BNone => absent
+  | BSize => Nat.min size len
+  | BNegSize => match size with O => O | _ => len - size end
+  end.
+
+(* s[lo:hi] *)
+Definition py_slice (size : nat) (lo hi : bound) (s : list N) : list N :=
+  let len := length s in
+  skipn (py_index size len lo O) (firstn (py_index size len hi len) s).
+
+Definition digit_string_with (p : pre) (c : N) (extra : Z) (side : pad_side) (lo hi : bound)
+    (size : nat) (x : dec) : res (list N) :=
+  bind (pre_text p x) (fun s => Ok (py_slice size lo hi (padded side (padding c extra size) s))).
+
+Definition digit_string : nat -> dec -> res (list N) :=
+  digit_string_with ds_pre ds_pad_char ds_pad_extra ds_pad_side ds_slice_lo ds_slice_hi.
 
 (* ---------------- decimal_places ---------------- *)
 
@@ -82,13 +146,61 @@ Definition round_half_even (c p : Z) : Z :=
   else if p <? 2 * r then q + 1
   else if Z.even q then q else q + 1.
 
-(* exponent of Decimal(1).scaleb(-digits) after the context has been applied *)
-Definition quantum_exp (d : Z) : res Z :=
-  if 2 * (emax + prec) <? d then Err DecimalInvalid
-  else if emax <? - d then Err OtherError       (* negative digits: 1E+k overflows (not exercised) *)
-  else Ok (Z.max (- d) etiny).
+(* c / p rounded in the given mode (c >= 0 the coefficient, p > 0, [sneg] the sign of the value);
+   RDefault is the rounding of the default context *)
+Definition round_div (r : rounding) (sneg : bool) (c p : Z) : Z :=
+  let q := c / p in
+  let m := c mod p in
+  let up := if m =? 0 then q else q + 1 in
+  match r with
+  | RDefault | RHalfEven => round_half_even c p
+  | RHalfUp => if 2 * m <? p then q else q + 1
+  | RHalfDown => if p <? 2 * m then q + 1 else q
+  | RDown => q
+  | RUp => up
+  | RCeiling => if sneg then q else up
+  | RFloor => if sneg then up else q
+  | R05Up => if (q mod 5 =? 0) then up else q
+  end.
 
-Definition quantize (x : dec) (e : Z) : res dec :=
+Definition ndigits (c : Z) : Z := Z.of_nat (length (str_nonneg c)).
+
+(* exponent of the quantum after the context has been applied.
+   QScaleb b s k   Decimal(b).scaleb(s * digits + k): InvalidOperation when the shift is outside
+                   +-2 * (Emax + prec); Overflow (OtherError here; negative digits, not exercised)
+                   when the adjusted exponent exceeds Emax; below Etiny the result underflows to
+                   exponent Etiny.
+   QLiteral e      a literal: its own exponent, whatever digits is. *)
+Definition quantum_exp_with (q : quantum_rule) (d : Z) : res Z :=
+  match q with
+  | QScaleb b s k =>
+      let e := s * d + k in
+      if (e <? - (2 * (emax + prec))) || (2 * (emax + prec) <? e) then Err DecimalInvalid
+      else if emax <? e + ndigits (Z.of_N b) - 1 then Err OtherError
+      else Ok (Z.max e etiny)
+  | QLiteral e => Ok e
+  end.
+
+Definition quantum_exp : Z -> res Z := quantum_exp_with dp_quantum.
+
+(* the Decimal that reaches quantize.
+   ViaDirect                  Decimal(value): exact.
+   ViaRepr, ViaStr, ViaFloat  a detour through text or through a float.  Exact (the identity) for
+                              an int, numeric str or Decimal of at most 17 significant digits
+                              (ViaStr; ViaRepr of a str or Decimal raises instead, which the
+                              exact decimal the model receives cannot tell).  A float becomes
+                              the shortest digit string that reads back as the same float; the
+                              model rounds the exact expansion half-even to 17 significant
+                              digits, which is an approximation of that. *)
+Definition round17 (x : dec) : dec :=
+  let c := Z.of_N (coef x) in
+  let k := ndigits c - 17 in
+  if k <=? 0 then x else mkdec (neg x) (Z.to_N (round_half_even c (10 ^ k))) (dexp x + k).
+
+Definition via_value (v : via) (x : dec) : dec :=
+  match v with ViaDirect => x | ViaRepr | ViaStr | ViaFloat => round17 x end.
+
+Definition quantize_with (r : rounding) (x : dec) (e : Z) : res dec :=
   if (e <? etiny) || (emax <? e) then Err DecimalInvalid
   else
     let c := Z.of_N (coef x) in
@@ -103,12 +215,23 @@ Definition quantize (x : dec) (e : Z) : res dec :=
           if 10 ^ prec <=? c' then Err DecimalInvalid
           else Ok (mkdec (neg x) (Z.to_N c') e)
       else
-        let c' := round_half_even c (10 ^ (- k)) in
+        let c' := round_div r (neg x) c (10 ^ (- k)) in
         if 10 ^ prec <=? c' then Err DecimalInvalid
         else Ok (mkdec (neg x) (Z.to_N c') e).
 
-Definition decimal_places (digits : Z) (x : dec) : res dec :=
-  bind (quantum_exp digits) (quantize x).
+Definition quantize : dec -> Z -> res dec := quantize_with dp_rounding.
+
+(* CtxExplicit: the outcome depends on a context object the model does not see; the model has no
+   description of that call (OtherError, which no observation of a returned value equals). *)
+Definition decimal_places_with (q : quantum_rule) (v : via) (r : rounding) (c : ctx)
+    (digits : Z) (x : dec) : res dec :=
+  match c with
+  | CtxExplicit => Err OtherError
+  | CtxDefault => bind (quantum_exp_with q digits) (quantize_with r (via_value v x))
+  end.
+
+Definition decimal_places : Z -> dec -> res dec :=
+  decimal_places_with dp_quantum dp_via dp_rounding dp_ctx.
 
 (* which branch of quantize a case takes (reported by the judge) *)
 Definition places_branch (digits : Z) (x : dec) : Z :=
@@ -124,6 +247,34 @@ Definition places_branch (digits : Z) (x : dec) : Z :=
         else if p <? 2 * r then 22
         else if Z.even (Z.of_N (coef x) / p) then 23 else 24
   end.
+
+(* ---------------- the partial() instances ---------------- *)
+
+Definition name_eqb (a b : list N) : bool :=
+  (length a =? length b)%nat && forallb (fun p => N.eqb (fst p) (snd p)) (combine a b).
+
+Fixpoint partial_lookup (name : list N) (t : list (list N * helper * Z)) : option (helper * Z) :=
+  match t with
+  | [] => None
+  | (n, h, k) :: t' => if name_eqb n name then Some (h, k) else partial_lookup name t'
+  end.
+
+(* NAME(value) for a module-level NAME = partial(helper, k): a name the module does not define
+   is AttributeError; the two helpers return different types, hence the sum *)
+Definition call_partial (name : list N) (x : dec) : res (list N + dec) :=
+  match partial_lookup name partial_table with
+  | None => Err AttributeError
+  | Some (HDigitString, k) =>
+      if k <? 0 then Err OtherError       (* negative size: not modelled *)
+      else bind (digit_string (Z.to_nat k) x) (fun s => Ok (inl s))
+  | Some (HDecimalPlaces, k) => bind (decimal_places k x) (fun r => Ok (inr r))
+  end.
+
+Definition name_digits_5 : list N := [100; 105; 103; 105; 116; 115; 95; 53]%N.        (* digits_5 *)
+Definition name_decimal_2 : list N := [100; 101; 99; 105; 109; 97; 108; 95; 50]%N.    (* decimal_2 *)
+
+Definition digits_5 (x : dec) : res (list N + dec) := call_partial name_digits_5 x.
+Definition decimal_2 (x : dec) : res (list N + dec) := call_partial name_decimal_2 x.
 
 (* ---------------- CONVERSION ---------------- *)
 
